@@ -156,7 +156,7 @@ def run_witnesses(repo, root, units, violations, work):
                 outp, errp = '', 'TIMEOUT'
             open(logp, 'w').write(outp + '\n----stderr----\n' + errp[-4000:])
             ran, failing = [], []
-            for m in re.finditer(r'^WITNESS (\S+) (OK|FAIL)\s*(.*)$', outp, flags=re.M):
+            for m in re.finditer(r'^WITNESS (\S+) (OK|FAIL)[ \t]*(.*)$', outp, flags=re.M):
                 ran.append(m.group(1))
                 if m.group(2) == 'FAIL':
                     failing.append(dict(name=m.group(1), observed=m.group(3)))
